@@ -383,6 +383,46 @@ def rule_gsd(ctx, tu):
         ctx.check(strip_facts(fc) in cfacts_, R, s2.node, f.qual, text(s2.node)[:60] + " is counted", "each unit update advances "
                   "the counter", "a +-1 update of the drawn state is not counted: more molecules are moved than the difference "
                   "of the totals")
+    # every species whose drawn total differs from the target is corrected: besides the selection itself, a unit update stands
+    # only under `difference != 0` and the direction of the correction.  A further skip on the species' amounts (`total < 1`,
+    # ...) leaves a drawn total that is not floor(real total)
+    import re as _re
+    OWNV = r"(delta\w*|rm_\w+|mesh_x_sto|target\w*|cumul\w*|\w*count\w*)"
+    for s2, ch in unit:
+        extra = [t for t, b in ch if not _re.search(r"\b%s\b" % OWNV, t)]
+        ctx.check(not extra, R, s2.node, f.qual, text(s2.node)[:50] + " reached for every species with a difference",
+                  "conditions on the difference, the direction and the selection only", "the correction of a species is skipped "
+                  "under `%s`: its drawn total stays what the independent draws gave, not floor(real total)" %
+                  (extra[0] if extra else "?"))
+    # what steers the correction of one species is set for that species: a local tested on the way to a unit update is declared
+    # inside the species loop, or assigned unconditionally at the top of its body -- a flag that is only ever set (hoisted out
+    # of the loop) keeps the previous species' direction
+    sp_loops = [lp for lp in walk(f.body) if lp.get("kind") == "ForStmt" and
+                any(any(y is s2.node for y in walk(lp)) for s2, _ in unit)]
+    if sp_loops:
+        sp = sp_loops[0]               # outermost
+        body_ = cxfe.raw_kids(sp)[4]
+        inside = {uname(v) for v in walk(body_) if v.get("kind") == "VarDecl"}
+        top_assigned = set()
+        for c_ in kids(body_) if body_.get("kind") == "CompoundStmt" else []:
+            for st_ in cxa.stores_of_node(strip(c_)) if c_.get("kind") not in ("IfStmt", "ForStmt", "WhileStmt", "DeclStmt") else []:
+                if st_.op == "=" and st_.base and st_.base[0] == "var":
+                    top_assigned.add(st_.base[1])
+        decl_out = {uname(v) for v in walk(f.body) if v.get("kind") == "VarDecl" and
+                    v.get("type", {}).get("qualType", "").replace("const ", "").strip() in
+                    ("int", "bool", "double", "float", "long", "unsigned int", "size_t", "unsigned long")} - inside
+        steer = set()
+        for s2, ch in unit:
+            for t, b in ch:
+                for w_ in _re.findall(r"[A-Za-z_][A-Za-z_0-9']*", t):
+                    if w_ in decl_out:
+                        steer.add(w_)
+        written_in = {st_.base[1] for st_ in cxa.all_stores(body_) if st_.base and st_.base[0] == "var"}
+        for v_ in sorted(steer & written_in):
+            ctx.check(v_ in top_assigned, R, sp, f.qual, "`%s` steers the correction and is declared outside the species loop" % v_,
+                      "re-initialised for every species", "`%s` is declared outside the species loop and only conditionally "
+                      "assigned inside: it keeps the value the previous species left (a sticky `remove` flag turns every later "
+                      "addition into a removal)" % v_)
     ctx.floor(R, 6)
     # C14.INTEGER: whatever is stored into the drawn state is a whole number
     R = "C14.INTEGER"
